@@ -70,6 +70,9 @@ def run(prop, tier, seed, replay=None):
     if prop == "C18":
         from . import featcheck
         return featcheck.run(tier, seed, replay)
+    if prop == "C20" and tier == "thorough" and seed % 2 == 0:
+        # every combination that includes `logger`: alternate with the most different one
+        feats = ["multi-stakker", "logger", "no-unsafe", "inline-deferrer", "inter-thread"]
     binary = common.build_harness(features=feats)
     mc = {"states": 0, "transitions": 0, "cases": [], "drift": [], "specs": [], "violations": []}
     if replay:
